@@ -12,7 +12,7 @@ rm -rf "$wt"; git -C /repo worktree prune
 git -C /repo worktree add -q --detach "$wt" HEAD || exit 2
 cp /repo/src/execnet/_version.py "$wt/src/execnet/"
 mkdir -p "$wt/_demo"
-for f in "$src"/demo*; do sed "s#/tmp/mut/$id#$wt#g" "$f" > "$wt/_demo/$(basename $f)"; done
+for f in "$src"/demo* "$src"/*.py "$src"/*.sh; do [ -f "$f" ] || continue; sed "s#/tmp/mut/$id#$wt#g" "$f" > "$wt/_demo/$(basename $f)"; done
 cd "$wt"
 run_demo() {
   if [ -f _demo/demo_test.py ]; then PYTHONPATH=$wt/src timeout 600 /venv/bin/python -m pytest -q -p no:cacheprovider -x _demo/demo_test.py > "$1" 2>&1; echo $?
